@@ -307,3 +307,18 @@ Definition arrays_space (tm : tmap_arrays) (sm : smap_arrays) (ctrl : name) : re
   | Some t, Some s => Ok {| sp_tmap := t; sp_smap := s; sp_ctrl := ctrl |}
   | _, _ => Err 1
   end.
+
+(* ---- the string codec helpers encode_string_array / decode_string_array (translated too) ----
+   np.char.encode(a) / np.char.decode(a, "utf-8") work elementwise and are the identity on valid NUL-free strings
+   (header bullet 2) - but on an array WITHOUT elements numpy returns an empty float64 array (of shape (0,) unless the
+   first dimension is non-zero), which is not a string array and cannot be stored / decoded as one: tag 33.  (That was
+   the defect repaired in /repo 81a412f; the helpers guard the call with `arr.size == 0`.)
+   np.empty(a.shape, dtype=...) is an array of a's shape with unspecified content; where a has no elements it is THE
+   array without elements of that shape, i.e. a itself as a value; elsewhere its content is not modelled: tag 34. *)
+Definition arr1_empty {T : Type} (a : list T) : bool := match a with [] => true | _ :: _ => false end.        (* a.size == 0 *)
+Definition arr2_empty {T : Type} (a : h5_2d T) : bool :=
+  Nat.eqb (fst a) 0 || match snd a with [] => true | _ :: _ => false end.
+Definition np_char_codec1 (a : list name) : result (list name) := if arr1_empty a then Err 33 else Ok a.
+Definition np_char_codec2 (a : h5_2d name) : result (h5_2d name) := if arr2_empty a then Err 33 else Ok a.
+Definition np_empty_like1 (a : list name) : result (list name) := if arr1_empty a then Ok a else Err 34.
+Definition np_empty_like2 (a : h5_2d name) : result (h5_2d name) := if arr2_empty a then Ok a else Err 34.
